@@ -201,6 +201,23 @@ pub fn op_sem(name: &str) -> OpSem {
     }
 }
 
+/// integer edge values: 0, +-1, small, shift counts around the width (31, 32, 33), INT_MAX, INT_MIN, INT_MIN + 1, UINT_MAX,
+/// UINT_MAX - 1, values whose conversion to float has to round (2^24 + 1, 2^31 - 64 / - 65, 2^32 - 128 / - 129)
+pub const INT_EDGES: [u32; 22] = [
+    0, 1, 2, 3, 7, 31, 32, 33, 1000, 0x7fff_ffff, 0x8000_0000, 0x8000_0001, 0xffff_ffff, 0xffff_fffe, 0xffff_fff9,
+    0x0100_0001, 0x0100_0003, 0x7fff_ffc0, 0x7fff_ffbf, 0xffff_ff80, 0xffff_ff7f, 0xff00_0000,
+];
+/// float edge values (bit patterns): both zeros, +-1, 0.5, 1.5, 2.5, quiet NaN of both signs, signalling NaN, NaN with all
+/// payload bits, both infinities, smallest / largest subnormal, FLT_MIN, +-FLT_MAX, the conversion limits 2^31, 2^31 - 128,
+/// -2^31, -2^31 - 256, 2^32, 2^32 - 256, 2^24, 2^24 + 2, -0.75 (truncates to 0), 1e10
+pub const FLOAT_EDGES: [u32; 32] = [
+    0x0000_0000, 0x8000_0000, 0x3f80_0000, 0xbf80_0000, 0x3f00_0000, 0x3fc0_0000, 0x4020_0000, 0x7fc0_0000, 0xffc0_0000,
+    0x7f80_0001, 0x7fff_ffff, 0xffff_ffff, 0x7f80_0000, 0xff80_0000, 0x0000_0001, 0x807f_ffff, 0x0080_0000, 0x7f7f_ffff,
+    0xff7f_ffff, 0x4f00_0000, 0x4eff_ffff, 0xcf00_0000, 0xcf00_0001, 0x4f80_0000, 0x4f7f_ffff, 0x4b80_0000, 0x4b80_0001,
+    0xbf40_0000, 0x5015_02f9, 0x4000_0000, 0xc040_0000, 0x7fc0_0001,
+];
+
+
 // ---- the concrete primitive interpretation (must equal Driver/C01.lean `concretePrim`) ----
 fn code(m: MBin) -> u32 {
     match m {
@@ -215,15 +232,19 @@ fn code(m: MBin) -> u32 {
 pub fn fbin(m: MBin, x: u32, y: u32) -> u32 {
     (x.rotate_left(5) ^ y.wrapping_mul(0x9E37_79B1)).wrapping_add(code(m))
 }
+/// comparisons are the real IEEE-754 ones (Rust's native `f32` comparison; the Lean driver computes them on bit patterns,
+/// Model/Ieee.lean): NaN is unordered, so `!(a < b)` is not `a >= b`, `a == a` can be false, `+0 == -0`.
+/// (The first version compared the bit patterns as signed integers: a total order, under which an exporter that
+/// replaces a comparison by its "opposite" was invisible.)
 pub fn fcmp(m: MBin, x: u32, y: u32) -> bool {
-    let (sx, sy) = (x as i32, y as i32);
+    let (fx, fy) = (f32::from_bits(x), f32::from_bits(y));
     match m {
-        MBin::Lt => sx < sy,
-        MBin::Le => sx <= sy,
-        MBin::Gt => sx > sy,
-        MBin::Ge => sx >= sy,
-        MBin::Eq => x == y,
-        MBin::Ne => x != y,
+        MBin::Lt => fx < fy,
+        MBin::Le => fx <= fy,
+        MBin::Gt => fx > fy,
+        MBin::Ge => fx >= fy,
+        MBin::Eq => fx == fy,
+        MBin::Ne => fx != fy,
         _ => false,
     }
 }
@@ -251,17 +272,20 @@ pub fn imod(signed: bool, x: u32, y: u32) -> u32 {
         x % y
     }
 }
+// conversions are the real ones: int -> float rounds to nearest (ties to even); float -> int truncates toward zero, NaN
+// gives 0 and values out of range saturate (`ftoi` / `ftou` of the Direct3D functional specification = Rust's `as`).
+// (The first version used a pair of mutually inverse bijections: `(int)(float)i == i` held for every i.)
 pub fn i2f(x: u32) -> u32 {
-    x.wrapping_mul(3) ^ 0x4B00_0000
+    (x as i32 as f32).to_bits()
 }
 pub fn u2f(x: u32) -> u32 {
-    x.wrapping_mul(5) ^ 0x4F00_0000
+    (x as f32).to_bits()
 }
 pub fn f2i(x: u32) -> u32 {
-    (x ^ 0x4B00_0000).wrapping_mul(0xAAAA_AAAB)
+    f32::from_bits(x) as i32 as u32
 }
 pub fn f2u(x: u32) -> u32 {
-    (x ^ 0x4F00_0000).wrapping_mul(0xCCCC_CCCD)
+    f32::from_bits(x) as u32
 }
 pub fn f2b(x: u32) -> bool {
     (x & 0x7FFF_FFFF) != 0
